@@ -666,7 +666,11 @@ func parseComponent(component string, propertyComponent bool, text string, leftP
 			Println("Content:", componentContent)
 
 			// Extract and concatenate individual component values but cut leading component identifier
+			// (including a suffix following the property indicator, e.g., A,p2, as done for single component instances)
 			componentWithoutIdentifier := componentContent[len(component):]
+			if headerEndIdx := strings.Index(componentContent, leftPar); headerEndIdx > len(component) {
+				componentWithoutIdentifier = componentContent[headerEndIdx:]
+			}
 			// Identify whether combination embedded in input string element
 			result := r.FindAllStringSubmatch(componentWithoutIdentifier, -1)
 			Println("Result of component match:", result)
